@@ -22,6 +22,7 @@ From Coq Require Import List Ascii String Bool Arith ZArith PrimFloat FloatOps S
 From Verif Require Import Base.Result Base.Str Base.Sexp Base.PyDict Base.Float
   Model.Tokenizer Model.Types Model.Domain Model.Exec Model.DomainExporter
   Spec.Pddl Spec.Grammar Spec.Roundtrip Proofs.C08_Defs Corr.Common Corr.Core.
+From Verif Require Spec.Layout.
 Import ListNotations.
 Open Scope string_scope.
 Open Scope list_scope.
@@ -122,6 +123,15 @@ Definition spec_same (c : case) : bool :=
   end.
 
 Definition obs_str_eqb := obs_eqb String.eqb.
+
+(* an exported text is PDDL text: ONE complete form and nothing after it (the library's own reader ignores whatever
+   follows the first form - recorded finding D02 of C11 - so a file that was rewritten without being truncated would
+   otherwise pass unnoticed; C11's strict reader Spec.Layout.parse_strict decides) *)
+Definition one_form (o : obs string) : bool :=
+  match o with
+  | Returned t => match Spec.Layout.parse_strict MFile (unesc t) with Ok _ => true | Err _ => false end
+  | Raised => false
+  end.
 Definition returned {A} (o : obs A) : bool := match o with Returned _ => true | Raised => false end.
 
 (* recorded finding D83: a universal precondition with an empty body is printed as nothing *)
@@ -144,7 +154,7 @@ Definition known_class (c : case) : bool :=
 
 Definition unit_export (c : case) : verdict :=
   {| v_agree := trees_agree (model_x1 c) (c_x1 c);
-     v_ok := returned (c_x1 c) && spec_same c;
+     v_ok := returned (c_x1 c) && one_form (c_x1 c) && spec_same c;
      v_known := known_class c |}.
 
 Definition unit_reparse (c : case) : verdict :=
@@ -160,7 +170,7 @@ Definition unit_second (c : case) : verdict :=
      v_ok := match read_obs (c_x1 c), read_obs (c_x2 c) with
              | Ok a, Ok b => same_tree (key a) (key b)
              | _, _ => false
-             end && returned (c_vocab2 c) && obs_str_eqb (c_vocab2 c) (c_vocab1 c);
+             end && one_form (c_x2 c) && returned (c_vocab2 c) && obs_str_eqb (c_vocab2 c) (c_vocab1 c);
      v_known := known_class c |}.
 
 (* the theorems' hypothesis holds for what the parser produced *)
